@@ -149,6 +149,8 @@ ENV_ACTS = [['start', 'app:d1'], ['start', 'app:d1'], ['stop', 'app:d1'], ['exit
 
 def gen_random(rnd, k):
     sc = {'strategy': 'USER', 'sched': rnd.randrange(1 << 30), 'steps': 160, 'events': [], 'late': {}}
+    if rnd.random() < 0.3:
+        sc['auto_fence'] = True          # a lost instance is ISOLATED by the others (and never handshaken again)
     if rnd.random() < 0.5:
         sc['late'] = {rnd.choice(['n2', 'n3']): rnd.randrange(0, 60)}
     for _ in range(rnd.randrange(3, 9)):
